@@ -124,6 +124,33 @@ Proof.
 Qed.
 Print Assumptions C05_close_ends_half_received_set.
 
+(* "...and arrives in non-decreasing upstream order": split any run of a (non-balanced) receiver in two, whatever is delivered,
+   polled and called, as long as the publisher is not restarted (no CLOSE is delivered): what an ephemeral source hands over in
+   the first part was not published under a larger id than what it hands over in the second.  (The id an ephemeral source is
+   at never goes down - Receiver_EphOrder.rstep_L - and what it hands over is of the id it is at - Receiver_EphOne.) *)
+From OF Require Import Proto.Receiver_EphOrder.
+Theorem C05_ephemeral_order_nondecreasing :
+  forall cid low_latency cs its1 its2,
+    Forall no_close_item (its1 ++ its2) ->
+    let '(s1, o1) := rrun Repaired (init_receiver cid false low_latency cs) its1 in
+    let '(s2, o2) := rrun Repaired s1 its2 in
+    forall d1 id1 b1 d2 id2 b2, In (ORet d1 id1 b1) o1 -> In (ORet d2 id2 b2) o2 ->
+    forall t1 sm1 t2 sm2 c, In (t1, sm1) d1 -> In (t2, sm2) d2 -> st_src sm1 = st_src sm2 ->
+      nth_error cs (st_src sm1) = Some c -> sc_eph c <> 0 -> st_mid sm1 <= st_mid sm2.
+Proof. exact receiver_eph_order. Qed.
+Print Assumptions C05_ephemeral_order_nondecreasing.
+
+(* a run the theorem speaks about: the listener is handed id 1; then a stale id 0 and id 3 arrive - 0 is discarded, 3 handed over *)
+Example C05_ephemeral_order_example :
+  let M := fun mid pay => {| w_wtopic := [47; 97; 47]; w_sid := 10; w_mid := mid; w_topics := [[97]]; w_bal := 0; w_pay := pay |} in
+  let its1 := [ICall None None 0; IDeliver 0 (M 1 11); IPoll [0%nat] 0; IPoll [] 0] in
+  let its2 := [ICall None None 0; IDeliver 0 (M 0 10); IDeliver 0 (M 3 13); IPoll [0%nat] 0; IPoll [0%nat] 0; IPoll [] 0] in
+  let o := snd (rrun Repaired (init_receiver 7 false false [{| sc_eph := 1; sc_mode := SubAll; sc_uid := 0 |}]) (its1 ++ its2)) in
+  filter (fun x => match x with ORet _ _ _ => true | _ => false end) o =
+    [ORet [([97], {| st_pay := 11; st_mid := 1; st_src := 0; st_topic := [97] |})] 0 0;
+     ORet [([97], {| st_pay := 13; st_mid := 3; st_src := 0; st_topic := [97] |})] 1 0].
+Proof. vm_compute. reflexivity. Qed.
+
 (* Non-vacuity: one synchronized and one ephemeral client; only the synchronized one has asked for the
    next frame, the ephemeral one stays silent: the publish goes out. *)
 Theorem C05_nonvacuous :
